@@ -389,6 +389,8 @@ func runC18(r *core.Run) (bool, string) {
 		"plus three edits in a row regenerated into the same two files (the Go one inside the package directory, compiled at the end): after an exit 0 the file must equal byte for byte a generation into a new file, whose test list is itself compared with go/parser; distinct by (state, mode, package[, step]); " +
 		"where -out points and what it is called (out_name_* keys): 6 locations (other directory, sub-directory of the package, the package directory; absolute and relative paths) × 10 base-name classes (names of the package's own source / non-Go files, the conventional _test.go names, swapped extensions, new names) × {-go, -coq} on private copies of further plain directories: the file must equal the stdout of the same generation and no other file of the package may change (in-package targets that are themselves sources are only recorded); " +
 		"kind of directory entry (entry_kind_* keys): one special entry per directory (regular / read-only file, symlinks to files outside and inside the directory, through a second link, named _test.go, directory and symlink-to-directory named x.go, dangling symlink); expected tests = go/parser over exactly the GoFiles that `go list -json` reports; directories go list rejects are skipped; " +
+		"physical shape of the source text (text_shape_* keys): one line of 10 KiB … 1 MiB (string constant, line / block comment, raw string, one-line table, the header line of a test function) before the first / between / after the last test function of a file, sizes on both sides of 64 KiB with the boundary values, CRLF alone and with such a line, no trailing newline, a byte-order mark, `func` after `;` / after a comment on the same line / indented, the name separated from `func` by a tab, spaces, a comment or a newline (every test function of the file spelled that way), several declarations or the whole file on one line, a generated-code header, //line directives, a 5 KiB name, 300 test functions, files of several MiB; " +
+		"build constraints (build_constraint_* keys): ≈ 80 files carrying //go:build lines over release / compiler / unix / cgo / GOOS / GOARCH / ignore / unknown / race tags (positive, negated, combined; below a licence or block comment, directly above the package clause, inside a block comment), old-style // +build lines with and without their blank line, both kinds of line, file-name constraints (_GOOS, _GOARCH, both, look-alikes, _test, bare GOOS names) and contradictions between name and line, three per directory next to two unconstrained files; for both families expected tests = go/parser over exactly the GoFiles that `go list -tags goose` reports, judged file by file for the constrained files; constraints on the tag goose itself are only noted; " +
 		"spelling of the package path (path_spelling_* keys): the same directory written 14 ways (absolute, relative, ./, ., ../, trailing and doubled slashes, /., /../, symlinks to it and to its parent) and identical copies under names with a space, brackets, *, ?, backslash, braces, quotes, $, unicode, a leading dash or dot, dots, Go-file-like names, 200-byte names, 1500-byte paths, glob characters in a parent (each glob-like name next to decoy packages the pattern would match): outputs must equal those for the copy under a plain absolute path")
 	r.Assume("go/parser and the Go compiler agree with the language specification on what a top-level function is")
 	r.Assume("a function named exactly `test` or `failing_test` is read as outside \"named test…\"; its treatment is only noted")
@@ -397,6 +399,11 @@ func runC18(r *core.Run) (bool, string) {
 		r.Inconclusive("build-test_gen-failed")
 		fmt.Fprintln(os.Stderr, err)
 		return false, "test_gen could not be built: " + err.Error()
+	}
+	if sig := replaySig(r.Replay); strings.HasPrefix(sig, c18ShapeSig) || strings.HasPrefix(sig, c18BuildSig) {
+		// functions of the seed only
+		c18ShapeAndBuildFamilies(r, tg, strings.TrimSuffix(map[bool]string{true: c18ShapeSig, false: c18BuildSig}[strings.HasPrefix(sig, c18ShapeSig)], "/"))
+		return r.Evals() > 0, "the replayed workload could not be run"
 	}
 	if sig := replaySig(r.Replay); strings.HasPrefix(sig, c18OutNameSig) || strings.HasPrefix(sig, c18EntrySig) || strings.HasPrefix(sig, c18PathSig) {
 		// these workloads are functions of the seed only
@@ -662,6 +669,9 @@ func runC18(r *core.Run) (bool, string) {
 		t = time.Now()
 		c18PathSpellings(r, tg)
 		phase["path_spelling"] = time.Since(t).Seconds()
+		t = time.Now()
+		c18ShapeAndBuildFamilies(r, tg, "")
+		phase["text_shape_and_build_constraint"] = time.Since(t).Seconds()
 		r.Set("workload_wall_s", phase)
 	}
 
@@ -682,6 +692,10 @@ func runC18(r *core.Run) (bool, string) {
 	}
 	if r.GetCount("expected_tests_total") < 20 {
 		return false, "too few test functions in the generated directories"
+	}
+	if r.NumViolations() == 0 && (r.GetCount("text_shape_directories_judged") < 15 || r.GetCount("text_shape_go_files_compiled_ok") < 10 ||
+		r.GetCount("build_constraint_files_judged/go-build-line/selected-by-go-tool") < 8 || r.GetCount("build_constraint_files_judged/go-build-line/excluded-by-go-tool") < 8 || r.GetCount("build_constraint_files_judged/file-name/excluded-by-go-tool") < 2) {
+		return false, "text-shape / build-constraint families: fewer than 15 shaped directories judged (10 compiled), or fewer than 8 selected and 8 excluded //go:build files, or fewer than 2 files excluded by their name"
 	}
 	if r.NumViolations() == 0 && r.GetCount("path_spelling_outputs_compared_with_plain_copy") < 40 {
 		return false, "package-path spelling workload: fewer than 40 outputs compared with the plain-named copy"
